@@ -280,6 +280,34 @@ Proof.
 Qed.
 Print Assumptions C05_kfilt_fk_preserve_channel_count.
 
+(* channel_labels=True: the labels come from detect_bad_channels on the RAW input; everything
+   proved for given labels applies to them (label-3 rows untouched by the spatial filter, the
+   others handed to it in order); the trace starts with the detection stage *)
+Theorem C05_destripe_autodetect :
+  forall R detect butter1 fshift1 interp spatial shifts (x : list (list R)) nc,
+  destripe_detect R detect butter1 fshift1 interp spatial shifts x =
+  destripe R butter1 fshift1 interp spatial shifts (Some (detect x)) x /\
+  map fst (destripe_trace_detect nc (match shifts with Some _ => true | None => false end) (detect x)) =
+  5%Z :: stage_codes (match shifts with Some _ => true | None => false end) (Some (detect x)).
+Proof.
+  intros. split; [reflexivity|]. unfold destripe_trace_detect. cbn [map fst]. f_equal.
+  apply destripe_trace_codes.
+Qed.
+Print Assumptions C05_destripe_autodetect.
+
+(* fk's argument guards: an unknown btype or missing vbounds makes the call fail (also through a
+   non-empty collection); with valid arguments the guarded function is fk *)
+Theorem C05_fk_argument_guards :
+  forall R (rO : R) base p coll (x : list (list R)),
+  (fk_args_ok p = true -> fk_checked R rO base p coll x = fk R rO base p coll x) /\
+  (fk_args_ok p = false -> coll <> Some [] -> fk_checked R rO base p coll x = None).
+Proof.
+  intros R rO base p coll x. unfold fk_checked. split.
+  - intros ->. destruct coll as [[|c l]|]; reflexivity.
+  - intros -> H. destruct coll as [[|c l]|]; try reflexivity. congruence.
+Qed.
+Print Assumptions C05_fk_argument_guards.
+
 (* ---- the exact-arithmetic limit of "at least 40 dB" ------------------------ *)
 
 (* car on channels that all carry the same waveform returns exactly zero (both operators) *)
